@@ -353,7 +353,8 @@ def run(r):
     for (w, ln, code) in prop2[:2]:
         inf = info2[w]
         r.violation({"property": PID, "part": "items", "why": "the spec rejects the offered items", "code": code, "line0": ln,
-                     "line_text": doc_lines(inf["docs"][-1][1])[ln], "items": inf["items"][ln], "documents": inf["docs"], "seed": r.seed}, "items_%d_%d" % (w, ln))
+                     "line_text": (doc_lines(inf["docs"][-1][1])[ln] if ln < len(doc_lines(inf["docs"][-1][1])) else ""),
+                     "items": (inf["items"][ln] if ln < len(inf["items"]) else None), "documents": inf["docs"], "seed": r.seed}, "items_%d_%d" % (w, ln))
     if not r.violations and (corr_bad or corr2):
         if corr_bad:
             i, ln, code, why = corr_bad[0]
